@@ -10,3 +10,6 @@ Proof. vm_compute. reflexivity. Qed.
 
 Lemma helper_guards : aesgcm_decrypt_length_guard = true /\ aesctr_iv_length_guard = true.
 Proof. split; reflexivity. Qed.
+
+Lemma fixed_size_guards : group_secret_length_guard = true /\ push_nonce_length_checked = true.
+Proof. split; reflexivity. Qed.
